@@ -194,7 +194,7 @@ var curves = map[int]elliptic.Curve{1: elliptic.P224(), 2: elliptic.P256(), 3: e
 func newKeyset(seed uint64) *keyset {
 	r := &rng{s: seed}
 	ks := &keyset{seed: seed, ec: map[int][2]*ecdsa.PrivateKey{}, certs: map[string]*x509.Certificate{}}
-	ks.rsa[0], ks.rsa[1] = genRSA(r, 1024), genRSA(r, 1024)
+	ks.rsa[0], ks.rsa[1] = genRSA(r, 1536), genRSA(r, 1536) // large enough for PSS with SHA-512
 	for _, c := range []int{1, 2, 3, 4} {
 		ks.ec[c] = [2]*ecdsa.PrivateKey{genEC(r, curves[c]), genEC(r, curves[c])}
 	}
@@ -1248,7 +1248,65 @@ func stdCheck(ci cellIn, der []byte, fail func(key, desc string)) {
 	}
 }
 
+// forged RSA encodings: a valid encoded message with one bit changed, turned into a "signature" with
+// the private key — the verifier must reject every one of them
+func forgeryOracle(c *vh.Ctx, keySeed uint64, seed uint64) {
+	ks := getKeys(keySeed)
+	r := &rng{s: seed}
+	priv := ks.rsa[0]
+	pub := &priv.PublicKey
+	msg := messages[0]
+	in := input{Kind: "forgery", KeySeed: keySeed, Seed: seed}
+	c.Eval("forgery")
+	try := func(what string, alg x509.SignatureAlgorithm, em []byte, pos int) {
+		em2 := append([]byte{}, em...)
+		em2[pos/8] ^= 1 << uint(pos%8)
+		if new(big.Int).SetBytes(em2).Cmp(pub.N) >= 0 {
+			return
+		}
+		sig, err := zrsa.VerifDecrypt(priv, em2, false)
+		if err != nil {
+			return
+		}
+		if x509.CheckSignatureFromKey(pub, alg, msg, sig) == nil {
+			c.Violation("forged-encoding-accepted", fmt.Sprintf("%s: encoded message with bit %d changed (of %d) still verifies under %v", what, pos, 8*len(em), alg), "oracle", in)
+		}
+	}
+	for _, t := range []struct {
+		alg x509.SignatureAlgorithm
+		h   crypto.Hash
+	}{{x509.SHA256WithRSAPSS, crypto.SHA256}, {x509.SHA384WithRSAPSS, crypto.SHA384}, {x509.SHA512WithRSAPSS, crypto.SHA512}} {
+		d := digestOf(t.h, msg)
+		emBits := pub.N.BitLen() - 1
+		em, err := zrsa.VerifEMSAPSSEncode(d, emBits, r.Bytes(t.h.Size()), t.h)
+		if err != nil {
+			panic(err)
+		}
+		padded := append(make([]byte, (pub.N.BitLen()+7)/8-len(em)), em...)
+		sig, _ := zrsa.VerifDecrypt(priv, padded, false)
+		if err := x509.CheckSignatureFromKey(pub, t.alg, msg, sig); err != nil {
+			c.Violation("genuine-encoding-rejected", fmt.Sprintf("PSS encoding made by emsaPSSEncode does not verify under %v: %v", t.alg, err), "oracle", in)
+		}
+		for pos := 0; pos < 8*len(em); pos += 1 + r.Intn(9) {
+			try("PSS", t.alg, padded, 8*(len(padded)-len(em))+pos)
+		}
+	}
+	for _, t := range []struct {
+		alg x509.SignatureAlgorithm
+		h   crypto.Hash
+	}{{x509.SHA256WithRSA, crypto.SHA256}, {x509.SHA1WithRSA, crypto.SHA1}, {x509.SHA512WithRSA, crypto.SHA512}, {x509.MD5WithRSA, crypto.MD5}} {
+		em, err := zrsa.VerifConstructEM(pub, t.h, digestOf(t.h, msg))
+		if err != nil {
+			panic(err)
+		}
+		for pos := 0; pos < 8*len(em); pos += 1 + r.Intn(9) {
+			try("PKCS#1 v1.5", t.alg, em, pos)
+		}
+	}
+}
+
 func oracle(c *vh.Ctx, keySeed uint64, r *rng) {
+	forgeryOracle(c, keySeed, r.U64())
 	for _, api := range apis {
 		for _, k := range signKTs {
 			for req := 0; req <= 18; req++ {
@@ -1275,6 +1333,8 @@ func replay(c *vh.Ctx, raw json.RawMessage) {
 		dsaCase(c, in)
 	case "cell":
 		cellOracle(c, in.KeySeed, cellIn{in.API, in.KT, in.Curve, in.Req}, in.Seed)
+	case "forgery":
+		forgeryOracle(c, in.KeySeed, in.Seed)
 	default:
 		panic("unknown replay kind " + in.Kind)
 	}
